@@ -439,6 +439,13 @@ package ps
 //@   props C09 C10
 //@   requires Γ != nil && Φ != nil && ν != nil && hε != nil && g2 != nil && X != nil && κ != nil && allG2(Y)
 //@   modifies nothing
+//@   // Fiat-Shamir binding, counting form: the oracle absorbs one encoding per key component and the seven other values
+//@   ghost-var absorbed int
+//@   on-call hash.Write(b):
+//@     ghost absorbed = absorbed + 1
+//@   at return:
+//@     assert [absorbs-all] absorbed == len(Y) + 7
+//@   loop 0: invariant [absorbed] 0 <= i && i <= len(Y) && absorbed == i
 //@
 //@ spec macro skOK(sk SK, n int) bool = sk.x != nil && len(sk.ys) == n && allZr(sk.ys)
 //@ spec macro proofOK(q BlindCorrectFormProof) bool = q.s != nil && q.z != nil && allZr(q.x) && allZr(q.y) && allG1(q.d) && allG1(q.f)
@@ -504,8 +511,15 @@ package ps
 //@   requires 0 <= n && n <= len(d) && n <= len(f) && n <= len(a) && n <= len(b) && n <= len(gs) && allG1(d) && allG1(f) && allG1(a) && allG1(b) && allG1(gs) &&
 //@            s != nil && cm != nil && g != nil && g0 != nil && h != nil && u != nil
 //@   modifies nothing
-//@   loop 0: invariant 0 <= i
-//@   loop 1: invariant 0 <= i
+//@   // Fiat-Shamir binding, counting form: four encodings per message component (d, f, a, b) and the six other values are
+//@   // absorbed (the public bases gs are encoded but not absorbed: they are fixed public parameters)
+//@   ghost-var absorbed int
+//@   on-call hash.Write(bb):
+//@     ghost absorbed = absorbed + 1
+//@   at return:
+//@     assert [absorbs-all] absorbed == 4*n + 6
+//@   loop 0: invariant [absorbed] 0 <= i && i <= n && absorbed == 4*i
+//@   loop 1: invariant [absorbed] 0 <= i && absorbed == 4*n + 6
 //@
 //@ func (*Signature).Bytes
 //@   props C10
